@@ -422,6 +422,36 @@ theorem default_index_names_match_source : defaultIndexNames = [str "index.html"
 
 example : (serve wFS2 { wCfg2 with index := defaultIndexNames, browse := false } (str "/") (str "/")).1 = .notFound := by decide
 
+/-- **provision_defaults_match_source.** What `FileServer.Provision` and `MatchFile.Provision` put in
+    place of empty fields, read off the source on every run: both read the filesystem and the root
+    from the SAME request variables (`{http.vars.fs}`, `{http.vars.root}` — what the `fs` and `root`
+    directives set), which is what makes `try_files` and `file_server` agree on the root (op `site`
+    exercises it dynamically). -/
+theorem provision_defaults_match_source :
+    CaddyModel.Gen.fileserverProvisionDefaults =
+      [("FileServer", "FileSystem", "\"{http.vars.fs}\""), ("FileServer", "Root", "\"{http.vars.root}\""),
+       ("FileServer", "IndexNames", "defaultIndexNames"),
+       ("MatchFile", "Root", "\"{http.vars.root}\""), ("MatchFile", "FileSystem", "\"{http.vars.fs}\""),
+       ("MatchFile", "TryFiles", "[{http.request.uri.path}]")] := by decide
+
+/-- walks the calls of `ServeHTTP` in source order, remembering which variables have been handed
+    to `fileHidden`: every `openFile x`, `serveBrowse x` and every `fs.Stat` of a derived name
+    (index file, sidecar) needs an earlier `fileHidden x` -/
+def guardedCalls : List (String × String) → List String → Bool
+  | [], _ => true
+  | (f, x) :: rest, seen =>
+    if f = "fileHidden" then guardedCalls rest (x :: seen)
+    else if f = "fsrv.openFile" ∨ f = "fsrv.serveBrowse" ∨ (f = "fs.Stat" ∧ x ≠ "filename") then
+      seen.contains x && guardedCalls rest seen
+    else guardedCalls rest seen
+
+/-- **serve_http_hide_checks_precede_opens.** A static second line behind the dynamic checks: in the
+    source of `FileServer.ServeHTTP` (regenerated call list) no file is opened, no directory
+    listed and no derived name stat'ed without an earlier `fileHidden` on the same variable. -/
+theorem serve_http_hide_checks_precede_opens : guardedCalls CaddyModel.Gen.serveHTTPCalls [] = true := by decide
+
+example : guardedCalls [("fs.Stat", "filename"), ("fsrv.openFile", "filename")] [] = false := by decide
+
 /-! ## the canonical-URI redirect -/
 
 /-- **redirect_location_same_origin.** The `Location` of every canonical redirect (trailing slash
